@@ -11,10 +11,10 @@ CHECK = {
     "min_nontrivial": {"quick": 40, "thorough": 150},
     "stages": [
         {"name": "tsan", "variant": "tsan", "harness": "c06_threads.cpp",
-         "cases": {"quick": 400, "thorough": 20000}, "params": {"steps": {"quick": 14, "thorough": 24}},
+         "cases": {"quick": 400, "thorough": 5000}, "params": {"steps": {"quick": 14, "thorough": 24}},
          "case_timeout": 300, "max_workers": 6},
         {"name": "asan", "variant": "asan", "harness": "c06_threads.cpp",
-         "cases": {"quick": 300, "thorough": 10000}, "params": {"steps": {"quick": 14, "thorough": 24}},
+         "cases": {"quick": 300, "thorough": 3000}, "params": {"steps": {"quick": 14, "thorough": 24}},
          "case_timeout": 300, "max_workers": 6},
     ],
     "assumptions": ["gcc ThreadSanitizer sees every synchronisation of the serial-backend build (std::mutex, std::atomic, shared_ptr atomic free functions via libstdc++'s mutex pool)",
